@@ -87,6 +87,16 @@ def c06(tapes, params):
     unique = {'n': 0}
     stats = {'frames': 0, 'answered': 0, 'ended_by_error': 0, 'unregistered': 0, 'maxdepth': 0}
     ready = {'n': 0}
+    # slow readers: in some runs the server->client direction has a small socket buffer, and the client
+    # pauses before it starts reading the replies of a pipelined batch (the server must simply wait)
+    base_plan = w.net.conn_plan
+    small_buffers = w.sch.chance(1, 3, 'smallbuf')
+
+    def plan(idx, c2s, s2c, peer):
+        base_plan(idx, c2s, s2c, peer)
+        if small_buffers:
+            s2c.capacity = w.sch.choice([256, 1024, 4096], 'cap')
+    w.net.conn_plan = plan
 
     def build(s, i, n, nframes):
         """The next frame of session i as an Item."""
@@ -241,6 +251,8 @@ def c06(tapes, params):
                 for it in batch:
                     s.send_frame(it.raw)
             stats['frames'] += len(batch)
+            if small_buffers and len(batch) > 1 and w.sch.chance(1, 2, 'slowreader'):
+                w.sched.sleep(w.sch.choice([0.05, 0.5, 3.0], 'readpause'))
             for it in batch:
                 if not it.expects:
                     continue
@@ -460,7 +472,10 @@ def gen_personality(g):
     if k == 0:
         return 'none', [], None, None
     if k == 1:
-        return 'simple', ['--simple'], None, []
+        # a simple (non-routing) device: -S, or the documented --route-path spellings for "none"
+        form = g.choice([['--simple'], ['-S'], ['--route-path', '0'], ['--route-path', 'false'], ['--route-path', '[]'],
+                         ['--route-path', '0', '--simple']], 'simpleform')
+        return 'simple', form, None, []
     port = g.choice([1, 2, 3, 14, 15, 300], 'cport')
     link = g.choice([0, 1, 5, 255, '1.2.3.4', '10.0.0.7', '192.168.100.200'], 'clink')
     if k == 2 and isinstance(link, int):
